@@ -65,7 +65,10 @@ class Lexer(object):
 
     @TOKEN(r"[\r\n]+")
     def t_newline(self, t):
-        t.lexer.lineno += len(t.value)
+        # A line break is "\n", "\r\n" or "\r": a carriage return + line feed pair is one line, not two
+        t.lexer.lineno += (
+            t.value.count("\n") + t.value.count("\r") - t.value.count("\r\n")
+        )
 
     def t_error(self, t):
         raise SyntaxError("Illegal character {0} at position {1}".format(t.value[0], t.lexpos))
